@@ -250,7 +250,7 @@ func c08Run(w *W) {
 			t := t
 			calls = append(calls, w.Do(fmt.Sprintf("sender %s:%d", m.name, t), func() (interface{}, error) {
 				for i := 0; i < nmsg; i++ {
-					if err := m.s.Send([]byte(fmt.Sprintf("%s:%d:%d", m.name, t, i))); err != nil {
+					if err := SendOwn(m.s, []byte(fmt.Sprintf("%s:%d:%d", m.name, t, i))); err != nil {
 						return nil, err
 					}
 					if empties && i == nmsg/2 {
